@@ -13,19 +13,22 @@
 (***************************************************************************)
 EXTENDS ConvCache, Json
 
-VARIABLE hist
-svars == <<vars, hist>>
+VARIABLES hist,   \* the history
+          when    \* [redef, coll]: history length from which the environment actions are enabled (TLC
+                  \* picks successors uniformly; without this the environment would nearly always act first)
+svars == <<vars, hist, when>>
+Whens == {0, 8, 16, 24, 32, 48}
 
-Abs == [cache |-> {<<k[1], k[2], cache[k]>> : k \in {kk \in Keys : cache[kk] # 0}},
+Abs == [cache |-> {<<k[1], k[2], cache[k]>> : k \in {kk \in Keys : cache[kk] # NoFac}},
         owner |-> owner, depth |-> depth,
         ntr   |-> {<<k[1], k[2], ntr[k]>> : k \in {kk \in Keys : ntr[kk] # 0}},
         ret   |-> {<<r.code, r.env, r.o, r.fac, r.renv>> : r \in returned},
         fns   |-> {<<f.code, f.env>> : f \in fns}]
 
-Rec(a, t, x) == hist' = Append(hist, [a |-> a, t |-> t, x |-> x, s |-> Abs'])
+Rec(a, t, x) == hist' = Append(hist, [a |-> a, t |-> t, x |-> x, s |-> Abs']) /\ UNCHANGED when
 Z == <<0, 0, 0>>
 
-SInit == Init /\ hist = <<>>
+SInit == Init /\ hist = <<>> /\ when \in [redef : Whens, coll : Whens]
 
 SStep(t) ==
   \/ \E f \in fns, o \in Opts : Start(t, f, o) /\ Rec("Start", t, <<f.code, f.env, o>>)
@@ -48,8 +51,8 @@ SStep(t) ==
   \/ Return(t) /\ Rec("Return", t, Z)
 
 SEnv ==
-  \/ \E f \in fns : Redefine(f) /\ Rec("Redefine", 0, <<f.code, f.env, FreshCode>>)
-  \/ \E c \in Codes : Collect(c) /\ Rec("Collect", 0, <<c, 0, 0>>)
+  \/ Len(hist) >= when.redef /\ \E f \in fns : Redefine(f) /\ Rec("Redefine", 0, <<f.code, f.env, FreshCode>>)
+  \/ Len(hist) >= when.coll /\ \E c \in Codes : Collect(c) /\ Rec("Collect", 0, <<c, 0, 0>>)
 
 SNext == ~Done /\ ((\E t \in Threads : SStep(t)) \/ SEnv)
 SSpec == SInit /\ [][SNext]_svars
